@@ -25,7 +25,7 @@ func (c20) ID() string { return "C20" }
 
 func (c20) Info() core.Info {
 	return core.Info{
-		Rule: "resource monitor: for each repetition family (prefix + fragment x n + suffix; as URL, as reference against a short and a long base, and SearchParams workloads) and " +
+		Rule: "resource monitor: for each of 92 repetition families (prefix + fragment x n + suffix, one or two long components; as URL, as reference against a short and a long base, SearchParams workloads; ten families under the relaxing parser options) and " +
 			"n in {2^10, 2^12, 2^14} (thorough adds 2^16, and 2^18 when 2^16 stayed under 64 MiB) the cost of Parse + Href + every getter + SearchParams()/String()/Sort() on the " +
 			"result is measured as (1) runtime.MemStats.TotalAlloc delta with the GC off (deterministic), (2) parser main-loop steps + cursor moves counted by the hook (deterministic), " +
 			"(3) thread CPU time (CLOCK_THREAD_CPUTIME_ID, goroutine locked to its thread, minimum of 5 repetitions). Verdict on the fitted exponent = least-squares slope of log(cost) over " +
@@ -39,10 +39,11 @@ func (c20) Info() core.Info {
 func (c20) Plan(tier string) core.Plan { return core.Plan{Shards: 16, CPUSeconds: 1500} }
 
 type family struct {
-	name                string
+	name                 string
 	prefix, frag, suffix string
-	base                string // "" = none; "LONG" = a long base built from the same n
-	sp                  bool   // additionally exercise SearchParams
+	base                 string // "" = none; "LONG" = a long base built from the same n
+	sp                   bool   // additionally exercise SearchParams
+	relaxed              bool   // parse with the relaxing parser options (lax host, accept-invalid, single-percent, collapse)
 }
 
 var c20Families = []family{
@@ -99,6 +100,17 @@ var c20Families = []family{
 	{name: "long scheme ref vs long base", prefix: "x", frag: "/a", base: "LONGSCHEME"},
 	{name: "tabs between text", prefix: "http://h/", frag: "abcdefg\n"},
 	{name: "tabs in host", prefix: "http://", frag: "a\t", suffix: "/"},
+	// the same kinds of families under the relaxing parser options that the experimental profiles use
+	{name: "relaxed: host %25", prefix: "http://", frag: "%25", suffix: "/", relaxed: true},
+	{name: "relaxed: host %", prefix: "http://", frag: "%", suffix: "/", relaxed: true},
+	{name: "relaxed: host invalid bytes", prefix: "http://", frag: "\xff", suffix: "/", relaxed: true},
+	{name: "relaxed: host a<", prefix: "http://", frag: "a<", suffix: "/", relaxed: true},
+	{name: "relaxed: opaque host %", prefix: "a://", frag: "%", suffix: "/", relaxed: true},
+	{name: "relaxed: path %", prefix: "http://h/", frag: "%", relaxed: true},
+	{name: "relaxed: path //", prefix: "http://h", frag: "//", relaxed: true},
+	{name: "relaxed: path /a//", prefix: "http://h", frag: "/a//", relaxed: true},
+	{name: "relaxed: query %", prefix: "http://h/?", frag: "%", sp: true, relaxed: true},
+	{name: "relaxed: path invalid bytes", prefix: "http://h/", frag: "\xff/", relaxed: true},
 	{name: "path /.", prefix: "http://h", frag: "/."},
 	{name: "path /%2e", prefix: "http://h", frag: "/%2e"},
 	{name: "path long segment", prefix: "http://h/", frag: "a"},
@@ -168,12 +180,19 @@ func threadCPU() int64 {
 
 var c20sink int
 
+var c20Relaxed = url.NewParser(url.WithLaxHostParsing(), url.WithAcceptInvalidCodepoints(), url.WithPercentEncodeSinglePercentSign(), url.WithCollapseConsecutiveSlashes())
+
 func c20op(f family, input, base string) {
 	var u *url.Url
 	var err error
-	if base != "" {
+	switch {
+	case f.relaxed && base != "":
+		u, err = c20Relaxed.ParseRef(base, input)
+	case f.relaxed:
+		u, err = c20Relaxed.Parse(input)
+	case base != "":
 		u, err = url.ParseRef(base, input)
-	} else {
+	default:
 		u, err = url.Parse(input)
 	}
 	if err != nil || u == nil {
